@@ -59,7 +59,7 @@ func coldStartProbe() {
 		{"bmtree.Decode", func() string { return fmt.Sprintf("%#x", bmtree.Decode(0x7, []uint64{0x2a})) }, wantDecode(0x7, 0x2a)},
 		{"bitstr.StrCmpUpto", func() string { return fmt.Sprint(bitstr.StrCmpUpto("ab", bitstr.New("abc", 0, 12))) }, "0"},
 		{"sigbits.FirstDiffBits", func() string { return fmt.Sprint(sigbits.FirstDiffBits([]string{"ab", "ac", "b"})) }, "[15 6]"},
-		{"sigbits.ShardByPrefix", func() string { return fmt.Sprint(sigbits.ShardByPrefix([]string{"aa", "ab", "b"}, 2)) }, "[1 1] [0 2 3]"},
+		{"sigbits.ShardByPrefix", func() string { return fmt.Sprint(sigbits.ShardByPrefix([]string{"aa", "ab", "b"}, 1)) }, "[2 2 1] [0 1 2 3]"}, // (maxSize 1: the only valid sharding)
 	}
 	// the fixed expectations above come from the definitions; the independent oracles re-derive two of them
 	if raceBuild {
